@@ -138,6 +138,12 @@ def source_case(case):
         cfg = Config(overrides={"timeouts": {"command": 7}, "runners": {"local": R}})
         Context(cfg).run("x", hide=True, in_stream=False, timeout=0)
         want = 0
+    elif kind == "kwargNone":
+        # a per-call None is a per-call value too: the caller exempts this command from the configured timeout
+        # (`timeout` follows the PRESENCE of the kwarg - C15 `opt_resolution`)
+        cfg = Config(overrides={"timeouts": {"command": 7}, "runners": {"local": R}})
+        Context(cfg).run("x", hide=True, in_stream=False, timeout=None)
+        want = None
     elif kind == "config":
         cfg = Config(overrides={"timeouts": {"command": 7}, "runners": {"local": R}})
         Context(cfg).run("x", hide=True, in_stream=False)
@@ -202,6 +208,14 @@ def real_case(case):
     c = Context(Config())
     k = case["real"]
     t0 = time.time()
+    if k == "exempt":
+        # a timeout is configured, the call says timeout=None: this command has no timeout and is left alone
+        c = Context(Config(overrides={"timeouts": {"command": 0.3}}))
+        try:
+            r = c.run("sleep 1; echo done", timeout=None, hide=True, in_stream=False, pty=case["pty"])
+        except CommandTimedOut:
+            return "[killed-without-timeout] run(..., timeout=None) under a configured timeout was killed and reported as timed out"
+        return None if "done" in r.stdout else "wrong output %r" % r.stdout
     if k == "sleep":
         try:
             c.run("echo started; %s" % case["cmd"], timeout=0.3, hide=True, in_stream=False, pty=case["pty"], warn=case["warn"])
@@ -429,7 +443,7 @@ def run(ctx):
     w3 = dict(base, warn=False, sched="x0,main,main,main,main,main,out,main,err,main,main,timer,main,timer,timer".split(","))
     w4 = dict(base, warn=False, sched="x0,timer,timer,timer,main,main,main,out,main,err,main,main,main".split(","))
     runnerio.run_cases(ctx, out, [w1, w2, w3, w4] + gcases, oracle=oracle_gated)
-    extra = [{"src": "kwarg"}, {"src": "kwarg0"}, {"src": "config"}, {"src": "none"}, {"src": "cli", "argv": ["-T", "5"]},
+    extra = [{"src": "kwarg"}, {"src": "kwarg0"}, {"src": "kwargNone"}, {"src": "config"}, {"src": "none"}, {"src": "cli", "argv": ["-T", "5"]},
              {"src": "cli", "argv": ["--command-timeout=5"]}, {"src": "cli", "argv": ["-T5"]},
              {"src": "file"}, {"src": "envvar"}, {"src": "file", "argv": ["-T", "5"]}, {"src": "envvar", "argv": ["-T5"]},
              {"src": "cli", "argv": [], "post": ["-T", "5"]}, {"src": "cli", "argv": [], "post": ["-T5"]},
@@ -457,6 +471,8 @@ def run(ctx):
             extra.append({"real": "quick", "pty": pty, "warn": warn})
     extra.append({"real": "sleep", "cmd": "trap '' TERM INT; sleep 5", "pty": False, "warn": False})
     extra.append({"real": "grandchild"})
+    extra.append({"real": "exempt", "pty": False})
+    extra.append({"real": "exempt", "pty": True})
     for c in extra:
         out.case(c, True)
         out.hist["extra:" + (c.get("src") and "source" or c.get("real") or ("reuse" if "reuse" in c else "reuse_real" if "reuse_real" in c
